@@ -234,7 +234,7 @@ def _shared_worker(seed):
     sprout = {"kind": "custom", "generator": "nbc", "gen_dist_factor": phi, "trunc_factor": tf, "deme_filters": ["demelimit"], "far_enough": 0.1,
               "fil_dist_factor": 1.0, "norm_ord": 2, "check_only_active": False, "deme_limit": 2, "tree_filters": ["levellimit"], "level_limit": 4}
     eng = {0: ["sea", "de", "shade", "ga"], 1: ["sea", "de", "cma"], 2: ["sea", "de"]}
-    specs = [R2.rand_spec(rng, nlev=int(rng.choice([2, 2, 3])), engines=eng, sprout=sprout, objective=str(rng.choice(["four", "sphere"])),
+    specs = [R2.rand_spec(rng, nlev=int(rng.choice([2, 2, 3])), engines=eng, sprout=sprout, objective=str(rng.choice(["four", "sphere", "penalty"])),
                           gsc={"kind": "MetaepochLimit", "limit": 6}, hibernation=bool(rng.random() < 0.5), cutoff=None) for _ in range(2)]
     found = []
     calls = [0]
@@ -249,8 +249,8 @@ def _shared_worker(seed):
                 pop = deme.current_population
                 X = np.array([i.genome for i in pop], dtype=float)
                 f = np.array([i.fitness for i in pop], dtype=float)
-                if len({tuple(x) for x in X.tolist()}) < len(X) or not np.all(np.isfinite(f)):
-                    continue
+                if len({tuple(x) for x in X.tolist()}) < len(X) or np.any(np.isnan(f)):
+                    continue  # (infinite values — a death penalty, an exhausted budget — are ordinary worst values)
                 ref, border = reference(X, f, deme._problem.maximize, phi, tf)
                 if ref is None or border:
                     continue
